@@ -39,6 +39,7 @@ def multidigit_single(items):
 
 class World:
     PID = PID
+    WATCHDOG_S = 60  # a run of this world takes well under a second; beyond this it is a hang
     TIERS = {
         "quick": {"runs": 20000, "budget_s": 45, "determinism_seeds": 16, "chunk": 200},
         "thorough": {"runs": 1000000, "budget_s": 900, "determinism_seeds": 200, "chunk": 500},
@@ -86,8 +87,13 @@ class World:
     def _gen_new(self, r, cfg, force_valid=False, bits_only=False):
         n, items = self._gen_items(r, cfg, bits_only)
         total = float(sum(w for _, w in items))
-        mode = r.choice(["scaled", "scaled", "exact", "raw", "raw-nonorm"]) if total > 0 else "raw"
-        if mode in ("scaled", "exact"):
+        mode = r.choice(["scaled", "scaled", "exact", "raw", "raw-nonorm", "near"]) if total > 0 else "raw"
+        if mode == "near":
+            # almost normalised: either well inside the library's isclose(rel 1e-9) tolerance (kept as is) or clearly
+            # outside it but still tiny (must be rescaled); the band around 1e-9 itself is avoided
+            delta = r.choice([-1, 1]) * r.choice([r.uniform(1e-13, 2e-10), r.uniform(5e-9, 9e-7)])
+            items = [[k, w / total * (1 + delta)] for k, w in items]
+        elif mode in ("scaled", "exact"):
             items = [[k, w / total] for k, w in items]
         elif abs(total - 1) < 1e-3:
             items = [[k, w * 3.0] for k, w in items]
@@ -293,7 +299,7 @@ class World:
             for k, v, w in zip(got, vals, want):
                 if not (v >= 0 and abs(v - w) <= 1e-12 * max(1.0, abs(w))):
                     ctx.fail("refine", "ctor-values", f"probability of {k}: {v!r}, expected {w!r} (input {inp})")
-            if a["normalize"] and not abs(sum(vals) - 1) <= 1e-9:
+            if a["normalize"] and not abs(sum(vals) - 1) <= 2e-9:
                 ctx.fail("invariant", "ctor-sum", f"probabilities sum to {sum(vals)!r}")
             if obj.get_number_of_subsystems() != len(items[0][0]):
                 ctx.fail("refine", "subsystems", f"get_number_of_subsystems() = {obj.get_number_of_subsystems()}")
